@@ -316,7 +316,7 @@ def _overlay_eval(db, chk, cp, rule) -> bool:
     critical ones marked), then one (start, end) pair of flow events per critical edge, pair k carrying id k and sitting on the process / thread of the events
     that own the edge's begin and end node.  Returns False when the evaluation did not reach the writer (the AST rules then stand alone)."""
     from ..core.interp import Interp
-    from ..core.values import Obj
+    from ..core.values import Obj, PyTuple, to_term
     f = cp.func("CriticalPathAnalysis.overlay_critical_path_analysis")
     where = cp.loc(f)
     params = H.param_names(f)
@@ -325,17 +325,22 @@ def _overlay_eval(db, chk, cp, rule) -> bool:
         return False
     SRC = [(1, 1), (1, 2), (0, 7), (0, 7)]          # (pid, tid) of the four source events
 
-    def scenario(only_crit):
+    def scenario(only_crit, show_all=False):
         written = []
 
         def mk():
             events = [{"ph": "X", "name": f"ev{i}", "pid": p_, "tid": t_, "ts": T.P(f"ts{i}"), "dur": T.P(f"dur{i}"), "args": {"device": -1}} for i, (p_, t_) in enumerate(SRC)]
             events.append({"ph": "M", "name": "ev4", "pid": 0, "tid": 0, "args": {"name": "a metadata record (kept by every option)"}})
             raw = {"traceEvents": events, "distributedInfo": {"rank": 0}}
-            E1 = Obj("E1", attrs={"begin": 10, "end": 11, "weight": T.P("w1"), "type": ("enum", "CPEdgeType", "OPERATOR_KERNEL")})
-            E2 = Obj("E2", attrs={"begin": 11, "end": 20, "weight": T.P("w2"), "type": ("enum", "CPEdgeType", "KERNEL_LAUNCH_DELAY")})
+            E1 = Obj("E1", attrs={"begin": 10, "end": 11, "weight": 5, "type": ("enum", "CPEdgeType", "OPERATOR_KERNEL")})
+            E2 = Obj("E2", attrs={"begin": 11, "end": 20, "weight": 0, "type": ("enum", "CPEdgeType", "KERNEL_LAUNCH_DELAY")})          # (a zero-weight launch edge ON the critical path: drawn by the default view, hidden by the show-all view)
             nodes = {10: Obj("n10", attrs={"ev_idx": 1, "is_start": True}), 11: Obj("n11", attrs={"ev_idx": 1, "is_start": False}), 20: Obj("n20", attrs={"ev_idx": 2, "is_start": True})}
-            g = Obj("cpg", cls=(cp, "CPGraph"), attrs={"critical_path_events_set": {1, 2}, "critical_path_edges_set": [E1, E2], "node_list": nodes})
+            # a third edge that is NOT on the critical path (drawn by the show-all view only): from event 2's start node to event 3
+            E3 = Obj("E3", attrs={"begin": 20, "end": 30, "weight": 3, "type": ("enum", "CPEdgeType", "DEPENDENCY")})
+            nodes[30] = Obj("n30", attrs={"ev_idx": 3, "is_start": True})
+            all_edges = {to_term(PyTuple([10, 11])): {"object": E1, "weight": E1.attrs["weight"]}, to_term(PyTuple([11, 20])): {"object": E2, "weight": E2.attrs["weight"]},
+                         to_term(PyTuple([20, 30])): {"object": E3, "weight": 3}}
+            g = Obj("cpg", cls=(cp, "CPGraph"), attrs={"critical_path_events_set": {1, 2}, "critical_path_edges_set": [E1, E2], "node_list": nodes, "edges": all_edges})
             return raw, g
         state = {}
 
@@ -350,15 +355,26 @@ def _overlay_eval(db, chk, cp, rule) -> bool:
                 return {"__flow__": True, **kw}
             if last in ("is_dir", "exists", "isdir"):
                 return True
+            if last == "critical_path_show_zero_weight_launch_edges":
+                return False
+            if last in ("edges", "data") and name.split(".")[0] == "critical_path_graph" and "edges" in name and isinstance(state.get("g"), Obj):
+                # networkx' other spellings of the edge view over the same graph: G.edges(data=True | key), G.edges.data(key)
+                key_ = kw.get("data", pos[0] if pos else None)
+                out_ = []
+                for kt_, d_ in state["g"].attrs["edges"].items():
+                    uv = [x[1] for x in kt_[1]]
+                    out_.append(PyTuple(uv + ([d_] if key_ is True else [d_.get(key_, kw.get("default"))] if isinstance(key_, str) else [])))
+                return out_
             if name.startswith(("Path", "os.")) or last in ("mkdir", "expanduser", "makedirs"):
                 return Obj("PATHOBJ")          # (an object: `path is None` is decided)
             return NotImplemented
 
         def args(I):
             state["raw"], g = mk()
+            state["g"] = g
             written.clear()
             return {"cls": Obj("cls", cls=(cp, "CriticalPathAnalysis")), "t": Obj("t", attrs={"trace_files": {T.P("RANK"): "/x/trace.json"}}), "rank": T.P("RANK"), "critical_path_graph": g,
-                    "output_dir": "/o", "only_show_critical_events": only_crit, "show_all_edges": False}
+                    "output_dir": "/o", "only_show_critical_events": only_crit, "show_all_edges": show_all}
         I = Interp(db, call_hook=hook)
         try:
             runs = [r for r in I.explore(f"{CPM}:CriticalPathAnalysis.overlay_critical_path_analysis", args) if r.raised is None]
@@ -391,6 +407,17 @@ def _overlay_eval(db, chk, cp, rule) -> bool:
                found=[str(x) for x in got2], accepted=[str(x) for x in want], why="dropping the other events before the flow events are built shifts every position: the arrows land on other events")
     else:
         chk.ob(rule, "[abstract run] only_show_critical_events=True evaluated to the written file", None, where, found="the run did not reach the writer with a concrete event list")
+    # the option table: show_all_edges draws every edge of the graph unless only the critical events are shown (then the critical edges only)
+    want3 = want[:2] + [(1, (0, 7), True), (1, (0, 7), False)]          # E1 and E3; the zero-weight launch edge E2 is hidden in the show-all view (option off)
+    for only_, all_, exp_ in ((False, True, want3), (True, True, want)):
+        te3 = scenario(only_, all_)
+        if te3 is not None and all(isinstance(x, dict) for x in te3):
+            got3 = [(x.get("id"), (x.get("pid"), x.get("tid")), x.get("is_start")) for x in te3 if x.get("__flow__")]
+            chk.ob(rule, f"[abstract run] only_show_critical_events={only_}, show_all_edges={all_}: " + ("every edge of the graph except zero-weight launch edges gets its flow pair" if not only_ else "only the critical edges are drawn (the other events are not in the file)"),
+                   got3 == exp_, where, found=[str(x) for x in got3], accepted=[str(x) for x in exp_],
+                   why="`show_all_edges and only_show_critical_events` (a lost `not`) draws the critical edges only when all were asked for, and all edges on events that were removed")
+        else:
+            chk.ob(rule, f"[abstract run] only_show_critical_events={only_}, show_all_edges={all_} evaluated to the written file", None, where, found="the run did not reach the writer with a concrete event list")
     return True
 
 
